@@ -20,7 +20,10 @@ RULE = ("random declarations (no defaults, no env) x random assignments over a h
 
 VALUES = [b"", b" ", b"a b", b"=", b"a=b=c", b"=x", b"-x", b"--", b"--name", b"-", b"---", b";", b"a;b",
           b"\n", b"a\nb", b"\r\n", b"\t", b"\xc3\xa4\xff\x80", b"'\"\\$`", b"{}", b"%s%n", b"plain",
-          b"file.txt", b"0", b"x" * 4096, b"-" * 300, b"no-x", b"--no-x=1", b" lead", b"trail ", b"\x01\x7f"]
+          b"file.txt", b"0", b"x" * 4096, b"-" * 300, b"no-x", b"--no-x=1", b" lead", b"trail ", b"\x01\x7f",
+          b"fifteen-chars-x", b"sixteen-chars-xy", b"seventeen-chars-x", b"v" * 23, b"v" * 24, b"w" * 255,
+          b"w" * 256, b"w" * 257, b"y" * 65536, b"z" * 70001]
+BIG = [17, 64, 65, 127, 128, 129, 255, 256, 257, 300, 1000]
 NUMS = [(b"0", 0), (b"7", 7), (b"007", 7), (b"+5", 5), (b"42", 42), (b"2147483647", 2147483647),
         (b"-12", -12), (b"-2147483648", -2147483648), (b"65535", 65535), (b"0100", 100), (b"012", 12),
         (b"0089", 89), (b"000042", 42), (b"-0010", -10), (b"08", 8), (b"+010", 10), (b"00", 0)]
@@ -91,6 +94,13 @@ def _render(rng, d, asg):
             groups.append([("opt", vt(by[name], v)) for v in vs])
     for name, k in asg["t"].items():
         o = by[name]
+        if k >= 17 and o.get("short") and rng.random() < 0.5:
+            # one bundle (or two) carrying all the occurrences
+            forms.append("bundle-long")
+            cutk = rng.choice([k, k, k // 2, 1])
+            groups.append([("opt", [b"-" + o["short"] * cutk])] +
+                          ([("opt", [b"-" + o["short"] * (k - cutk)])] if k > cutk else []))
+            continue
         for _ in range(k):
             if o.get("short") and rng.random() < 0.6:
                 forms.append("toggle-short")
@@ -142,10 +152,18 @@ def _render(rng, d, asg):
     return argv, forms
 
 
-def _assignment(rng, d, typed):
+def _assignment(rng, d, typed, scale=False):
     asg = {"o": {}, "m": {}, "t": {}, "pos": [], "typed": []}
     for o in d["opts"]:
         r = rng.random()
+        if scale and r < 0.5:
+            # counts beyond small fixed-size buffers and narrow counters
+            if o["kind"] == "t":
+                asg["t"][o["name"]] = rng.choice(BIG)
+                continue
+            if o["kind"] == "m":
+                asg["m"][o["name"]] = [rng.choice(VALUES[:31]) for _ in range(rng.choice(BIG[:10]))]
+                continue
         if o["kind"] == "o" and r < 0.7:
             if typed and rng.random() < 0.4:
                 if rng.random() < 0.6:
@@ -173,7 +191,9 @@ def _assignment(rng, d, typed):
         elif o["kind"] == "t" and r < 0.7:
             asg["t"][o["name"]] = rng.randint(1, 4)
     lim = d.get("pos")
-    if lim is not None and lim != 0:
+    if scale and lim == "inf" and rng.random() < 0.5:
+        asg["pos"] = [rng.choice(VALUES[:31]) for _ in range(rng.choice(BIG))]
+    elif lim is not None and lim != 0:
         n = rng.randint(0, 4 if lim == "inf" else lim)
         asg["pos"] = [rng.choice(VALUES) for _ in range(n)]
     return asg
@@ -204,8 +224,11 @@ def gen(tier, seed, chunk, nch):
     n = (20000 if tier == "quick" else 500000) // nch
     for _ in range(n):
         d = _decl(rng)
-        asg = _assignment(rng, d, typed=True)
+        scale = rng.random() < 0.02
+        asg = _assignment(rng, d, typed=True, scale=scale)
         argv, forms = _render(rng, d, asg)
+        if scale:
+            forms.append("scale")
         cases.append({"decl": d, "asg": asg, "argv": argv, "forms": forms})
     return cases
 
@@ -291,7 +314,7 @@ def evaluate(case, lines, S):
 
 def finish(run, S, tier):
     need = ["form:long-eq", "form:long-sp", "form:short-eq", "form:short-sp", "form:toggle-short",
-            "form:toggle-long", "form:bundle", "form:dd"] + \
+            "form:toggle-long", "form:bundle", "form:dd", "form:bundle-long", "form:scale"] + \
            ["value:" + c for c in ("empty", "linebreak", "leading-dash", "has-eq", "long",
                                    "non-ascii-or-control", "blanks", "plain")]
     miss = [n for n in need if S.counters.get(n, 0) == 0]
